@@ -61,11 +61,19 @@ NestedLiteral(stmts) ==
   \E e \in AllSub(stmts) : e.k = "blit" /\ \E i \in DOMAIN e.es : e.es[i].k = "ref" /\
        \E j \in Lets(stmts) : stmts[j].n = e.es[i].n /\ stmts[j].ty = "Bundle" /\ stmts[j].e.k = "blit" /\ Len(e.es) > 1
 
-KnownFinding1(stmts, clause) ==
+KnownFinding0(stmts, clause) ==
   IF clause = "C01_value" /\ Triangle(stmts) THEN "KF-C01-sametype-triangle"
   ELSE IF clause = "C01_value" /\ MergeAndDirect(stmts) THEN "KF-C01-merge-and-direct"
-  ELSE IF clause = "C20_exposed" /\ CseAlias(stmts) THEN "KF-C20-cse-alias"
+  ELSE IF clause \in {"C20_exposed", "C20_label"} /\ CseAlias(stmts) THEN "KF-C20-cse-alias"
   ELSE ""
+(* KF-C20-projection-label: the combinator that projects a named value onto another type (r = a | "t") is labelled  *)
+(* with the name of its operand (a), not with the declared name r.                                                     *)
+RECURSIVE ProjOfRef(_)
+ProjOfRef(e) == e.k = "proj" /\ (e.e.k = "ref" \/ ProjOfRef(e.e))
+ProjectionLabel(stmts) == \E i \in Lets(stmts) : ProjOfRef(stmts[i].e)
+
+KnownFinding1(stmts, clause) ==
+  IF clause = "C20_label" /\ ProjectionLabel(stmts) THEN "KF-C20-projection-label" ELSE KnownFinding0(stmts, clause)
 KnownFinding(stmts, clause) ==
   IF clause \in {"C02_bag", "C01_value"} /\ BundleCmpSignal(stmts) THEN "KF-C02-scalar-operand-visible"
   ELSE IF clause = "C02_bag" /\ NestedLiteral(stmts) THEN "KF-C02-nested-literal"
